@@ -6,15 +6,16 @@
  *   R                         fresh decoder                                          -> {"reset":1}
  *   G <region>                vbi_teletext_set_default_region                        (silent)
  *   P <84 hex digits>         one Teletext packet, one frame                         (silent)
- *   K <b1> <b2>               one caption byte pair (hex, parity included), field 1  (silent)
+ *   K <field> <b1> <b2>       one caption byte pair (hex, parity included) on field 1 / 2 = line 21 / 284  (silent)
  *   F <pgno> <subno> <level> <rows> <nav>   vbi_fetch_vt_page -> current page        -> {"page":{...}} | {"page":null}
  *   C <channel>               vbi_fetch_cc_page -> current page                      -> {"page":{...}}
- *   X <module> <every_upto> <edge> <nrand> <seed> <decode charset|-> <opts|->
+ *   X <module> <every_upto> <edge> <nrand> <seed> <decode charset|-> <gfx code> <opts|->
  *                             the four export targets on the current page            -> {"x":{...}}
  *   T <format> <table> <col> <row> <w> <h> <every_upto> <edge> <nrand> <seed>
  *                             vbi_print_page_region with many buffer sizes           -> {"t":{...}}
- *   D <vt|cc> <fmt> <exact|plus5|full|auto> <col> <row> <w> <h> <reveal> <flash>
+ *   D <vt|cc> <fmt> <exact|plus<N>|full|auto> <col> <row> <w> <h> <reveal> <flash>
  *                             draw a region into a guarded canvas, project to cells  -> {"d":{...}}
+ *   Z <module> <file> <opts|->               vbi_export_file into a file that is kept (for inspection only)
  *   W <mem|alloc|stdio|file> <size> <op>...      scripted export module (w<n> c p<n> g<n> f) through the public
  *                             target functions; logs the write layer's state after every operation -> {"w":{...}}
  */
@@ -201,12 +202,12 @@ static void cmd_export(char *line)
 {
 	char mod[64], decode[64], opts[512], name[600], h[20];
 	long every_upto, edge, nrand, needed = -1, nsz, i;
-	unsigned seed;
+	unsigned seed, gfx = 0x20;
 	vbi_export *e;
 	char *err = NULL;
 	void *abuf = NULL; size_t alen = 0;
 	opts[0] = 0;
-	if (sscanf(line, "%63s %ld %ld %ld %u %63s %511s", mod, &every_upto, &edge, &nrand, &seed, decode, opts) < 7 || !have_page) {
+	if (sscanf(line, "%63s %ld %ld %ld %u %63s %u %511s", mod, &every_upto, &edge, &nrand, &seed, decode, &gfx, opts) < 8 || !have_page) {
 		printf("{\"x\":null}\n"); return;
 	}
 	e = vbi_export_new(mod, &err);
@@ -258,9 +259,6 @@ static void cmd_export(char *line)
 	}
 	printf("],\"n\":%ld,\"nullbuf\":%ld}", nsz, (long) vbi_export_mem(e, NULL, 100, &pg));
 	if (strcmp(decode, "-") && abuf) {
-		unsigned gfx = 0x20;
-		vbi_option_value v;
-		if (vbi_export_option_get(e, "gfx_chr", &v)) { gfx = (unsigned char) v.str[0]; free(v.str); }
 		printf(",\"cp\":"); print_codepoints(decode, abuf, alen);
 		printf(",\"unrepr\":"); print_unrepresentable(decode, gfx);
 		printf(",\"gfx\":%u", gfx);
@@ -370,7 +368,7 @@ static void cmd_draw(char *line)
 	cw = kind ? 16 : 12; ch = kind ? 26 : 10;
 	rect = w * cw * bpp;
 	if (!strcmp(strides, "exact")) stride = rect;
-	else if (!strcmp(strides, "plus5")) stride = rect + 5;
+	else if (!strncmp(strides, "plus", 4)) stride = rect + atoi(strides + 4);
 	else if (!strcmp(strides, "full")) stride = pg.columns * cw * bpp + 8;
 	else stride = pg.columns * cw * bpp;                      /* auto: -1, whole rows only */
 	arg_stride = !strcmp(strides, "auto") ? -1 : stride;
@@ -512,12 +510,12 @@ static void cmd_write(char *line)
 		printf("}}}\n");
 		free(big);
 	} else if (!strcmp(tname, "alloc")) {
-		void *b = NULL; size_t bl = 0;
+		void *b = NULL; size_t bl = (size_t) -1;                 /* on failure buffer and size remain unmodified */
 		void *r = vbi_export_alloc(e, &b, &bl, &dummy);
-		printf("{\"w\":{\"begin\":{\"t\":\"ALLOC\",\"n\":0},\"ops\":[%s],\"end\":{\"ok\":%d,\"made\":%ld,\"out\":", w_log, r != NULL, w_made);
+		printf("{\"w\":{\"begin\":{\"t\":\"ALLOC\",\"n\":0},\"ops\":[%s],\"end\":{\"ok\":%d,\"made\":%ld,\"out\":", w_log, r != NULL || bl == 0, w_made);
 		print_bytes(b, r ? (long) bl : 0);
 		printf("}}}\n");
-		free(b);
+		free(r);
 	} else if (!strcmp(tname, "stdio")) {
 		char *mb = NULL; size_t ml = 0;
 		FILE *fp = open_memstream(&mb, &ml);
@@ -603,6 +601,14 @@ int main(void)
 		case 'T': cmd_print(line + 1); break;
 		case 'D': cmd_draw(line + 1); break;
 		case 'W': cmd_write(line + 1); break;
+		case 'Z': {                                         /* Z <module> <file> <opts|-> : export to a file that is kept (for inspection, silent) */
+			char mod[64], path[400], opts[512];
+			if (sscanf(line + 1, "%63s %399s %511s", mod, path, opts) == 3 && have_page) {
+				vbi_export *e = vbi_export_new(mod, NULL);
+				if (e) { set_options(e, opts); printf("\"keep\":%d\n", vbi_export_file(e, path, &pg)); vbi_export_delete(e); }
+			}
+			break;
+		}
 		}
 	}
 	if (have_page) vbi_unref_page(&pg);
